@@ -169,7 +169,7 @@ PROPS = {
     ),
     'C07': dict(
         title='Filter evaluation follows the Haystack filter semantics',
-        verus=[('u_resolver', [r'^Dict::resolve_for$', r'^Path::', r'^lemma_walk_null_stays$', r'^Value::is_null$', r'^Grid::filter_all$']),
+        verus=[('u_resolver', [r'^Dict::resolve_for$', r'^Path::', r'^lemma_walk_null_stays$', r'^Value::is_null$', r'^Grid::filter_all$', r'^Grid::filter$']),
                ('u_feval', [r'^(Or|And|Term|Parens|Has|Missing|Cmp)::eval$', r'^lemma_all_terms_false$', r'^lemma_any_and_true$', r'^Value::has_value$', r'^ev_|^any_and$|^all_terms$'])],
         kani=[dict(harness='k_cmp_eq', klass='complete', schema='raw', family='filter-cmp:eq', target='filter::nodes::cmp_values(Eq)', timeout=400),
               dict(harness='k_cmp_ne', klass='complete', schema='raw', family='filter-cmp:ne', target='filter::nodes::cmp_values(NotEq)', timeout=400),
@@ -188,7 +188,7 @@ PROPS = {
                     'Grid::filter_all: it returns exactly the rows for which the filter holds, in order.'),
         not_decided=('caller-supplied resolvers and Ref chains; '
                      '^symbol and relationship terms (namespace, C13); string/ref/date literals and list tags in the kernel (heap values '
-                     'make CBMC runs unbounded in time: a two-element list harness did not finish in 20 min); Grid::filter (first match: Iterator::find); '
+                     'make CBMC runs unbounded in time: a two-element list harness did not finish in 20 min); '
                      'precedence is a parser matter (C08). NaN literals are excluded (not expressible in filter text; derive(PartialOrd) '
                      'orders NaN differently on the repository toolchain and on Kani\'s nightly).'),
         technique='contract-based deductive verification: Kani complete symbolic harnesses on the real comparison kernel',
